@@ -32,7 +32,7 @@ NAME_CMD = {"OPERATIONAL": 1, "STOPPED": 2, "SLEEP": 80, "STANDBY": 96, "PRE-OPE
 
 def plan(tier, seed):
     n = 9
-    return [{"histories": 40 if tier == "quick" else 1200, "length": 30 if tier == "quick" else 200, "modifiable": [True, False, "copy"][i % 3],
+    return [{"histories": 40 if tier == "quick" else 1200, "length": 30 if tier == "quick" else 200, "modifiable": [True, False, "copy", "restartable"][i % 4],
              "cs": seed * 100 + i} for i in range(n)]
 
 
@@ -70,6 +70,15 @@ class Expect:
         return sorted(t + (False,) for t in master), sorted(t + (False,) for t in slave)
 
 
+def field_range(var):
+    if var.od.data_type == R.BOOLEAN:
+        return 0, 1
+    lo, hi = R.int_range(var.od.data_type)
+    if var.length < R.width(var.od.data_type):
+        return 0, (1 << var.length) - 1
+    return lo, hi
+
+
 def live(st):
     out = []
     for t in st.tasks:
@@ -95,11 +104,16 @@ def history(ctx, rng, desc, hid):
     for name, m in maps.items():
         m.cob_id = cob[name]
         m.enabled = True
-        for dt in rng.sample([R.UNSIGNED8, R.INTEGER16, R.UNSIGNED32, R.INTEGER8, R.UNSIGNED16], 3):
+        for dt in rng.sample([R.UNSIGNED8, R.INTEGER16, R.UNSIGNED32, R.INTEGER8, R.UNSIGNED16], 2):
             m.add_variable(gen.TYPE_INDEX_BASE + dt, 0)
+        # bit fields too: a flag and a nibble (written through the shift/mask path, at odd offsets)
+        m.add_variable(gen.TYPE_INDEX_BASE + R.BOOLEAN, 0, 1)
+        m.add_variable(gen.TYPE_INDEX_BASE + R.UNSIGNED8, 0, 3)
+        if rng.random() < 0.5:
+            m.add_variable(gen.TYPE_INDEX_BASE + R.UNSIGNED16, 0)            # a full-size object after them: off a byte border
     exp = Expect()
     ops = []
-    flavour = "modifiable-kernel-copy" if mod == "copy" else "modifiable" if mod else "fixed"
+    flavour = "modifiable-kernel-copy" if mod == "copy" else "fixed-restartable" if mod == "restartable" else "modifiable" if mod else "fixed"
     direction = "usual-direction" if usual else "unusual-direction"
 
     def case():
@@ -215,8 +229,8 @@ def history(ctx, rng, desc, hid):
                 # the payload returns to an earlier one across a stop/start: A (running), stop, B, start, A again
                 which = "local" if exp.pdo["local"] is not None else "remote"
                 var = rng.choice(list(maps[which]))
-                lo, hi = R.int_range(var.od.data_type)
-                a, b = rng.sample([0, 1, hi, lo], 2)
+                lo, hi = field_range(var)
+                a, b = rng.sample(sorted({0, 1, hi, lo}), 2)
                 ops.append(("pdo.payload-recurs-across-restart", which, var.name, a, b))
                 ctx.case(("pdo.payload-recurs-across-restart", flavour, direction), nontrivial=True)
                 var.raw = a
@@ -234,7 +248,7 @@ def history(ctx, rng, desc, hid):
             elif r < 0.52:
                 which = rng.choice(["local", "remote"])
                 var = rng.choice(list(maps[which]))
-                lo, hi = R.int_range(var.od.data_type)
+                lo, hi = field_range(var)
                 v = rng.randint(lo, hi) if rng.random() < 0.4 else rng.choice([0, 1, hi])     # payloads recur (A, B, A, ...)
                 ops.append(("pdo.assign", which, var.name, v))
                 ctx.case(("pdo.assign", exp.pdo[which] is not None, flavour), nontrivial=exp.pdo[which] is not None)
